@@ -51,7 +51,13 @@ Mode2(k, other) ==
    transitions |-> IF m.patterns[1].token_type < 9 THEN TransOpt(2, m.patterns[1].token_type, 9)
                    ELSE TransOpt(2, 9, m.patterns[1].token_type)]
 NPair == 400
+\* lists with a mode that has no pattern at all (e.g. a mode that is only a transition target)
+EmptyPatternModes ==
+  << << [name |-> "EMPTY", patterns |-> <<>>, transitions |-> <<>>] >>,
+     << Mode1(3), [name |-> Names[2], patterns |-> <<>>, transitions |-> <<>>] >>,
+     << [name |-> "", patterns |-> <<>>, transitions |-> <<>>], Mode1(17), Mode1(40) >> >>
 ModesValues ==
+  [k \in 1..Len(EmptyPatternModes) |-> [kind |-> "modes", id |-> 0, value |-> EmptyPatternModes[k]]] \o
   [k \in 1..N1 |-> [kind |-> "modes", id |-> k, value |-> << Mode1(k - 1) >>]]
   \o [k \in 1..NPair |-> [kind |-> "modes", id |-> N1 + k,
                           value |-> << Mode2((k * 37) % N1, 1), Mode2((k * 101 + 5) % N1, 0) >>]]
